@@ -1134,3 +1134,15 @@ package solver
 //@     invariant idx: 0 <= j && j < k && k <= nbLits && nbLits <= len(c.lits) && c.lits == entry3(c.lits) && !clauseSat && lit == c.lits[j]
 //@     invariant nn:  entry3(forall(k2, 0, len(c.lits), c.lits[k2] >= 0)) ==> forall(k2, 0, nbLits, c.lits[k2] >= 0)
 //@     invariant sem: agreesM(pb.Model, A) && entry3(forall(k2, 0, len(c.lits), c.lits[k2] >= 0)) ==> (someTrue(c, nbLits, A) <==> entry3(someTrue(c, len(c.lits), A)))
+
+// ---------------------------------------------------------------- entry points used by package explain (trusted frames)
+
+// ParseSlice / New read the caller's clause lists and build their own representation; they are
+// not verified here (C01): trusted to leave the caller's memory untouched.
+//@ func ParseSlice
+//@   trusted
+//@   ensures nn: result != nil
+
+//@ func New
+//@   trusted
+//@   ensures nn: result != nil
